@@ -417,6 +417,12 @@ fn main() {
                 run_line(&mut run, &mut b, "roundtrip-tamper", format!("MRT {backend} {s} {} {} {raw}", hex(mime.as_bytes()), hex(name.as_bytes())));
             }
         }
+        // accepted but non-canonical spellings of the MIME type (case, surrounding blanks, parameters): the caller's spelling
+        // must not leak into the key derivation or the AAD, otherwise nobody can decrypt the upload
+        for (k, sp) in ["Text/Plain", "  text/plain  ", "text/plain; charset=utf-8", "APPLICATION/OCTET-STREAM", "Application/Pdf", "application/octet-stream; x=1"].iter().enumerate() {
+            let s = sizes[(k * 2 + 1) % 6];
+            run_line(&mut run, &mut b, "roundtrip-spelling", format!("MRT {backend} {s} {} {} std", hex(sp.as_bytes()), hex(NAMES[k % NAMES.len()].as_bytes())));
+        }
         for k in 0..=6u64 {
             let js: Vec<u64> = if thorough { (0..=k).collect() } else { let mut v = vec![0, k]; if k >= 2 { v.push(r.range(1, k - 1)); } v.sort(); v.dedup(); v };
             for j in js { if backend == "sqlite" && !thorough && j != 0 && j != k { continue; } run_line(&mut run, &mut b, "later-epoch", format!("MLATER {backend} {j} {k}")); }
